@@ -32,6 +32,7 @@ type Obligation struct {
 	Known   string
 	QueryNo int
 	RawQuery string // complete SMT-LIB text (string-theory lemmas); unsat = discharged
+	Tagged   bool   // the clause carries a clause-level [Cxx] tag (exclusive ownership)
 }
 
 type Engine struct {
@@ -340,6 +341,7 @@ func (e *Engine) VerifyFunc(key string) {
 				}
 				e.oblige(o.St, name+"#"+en.Label, "ensures", g, en.Src, props)
 				e.obls[len(e.obls)-1].Known = en.Known
+				e.obls[len(e.obls)-1].Tagged = len(en.Props) > 0
 			}
 			// frame: ghost variables not listed in modifies are unchanged
 			if !fc.ModAll {
